@@ -153,7 +153,49 @@ def emit() -> str:
             and [ast.unparse(s) for s in after[0].body] == ["best_route = self.default_route"] and not after[0].orelse
             and ast.unparse(after[1]) == "return best_route"):
         raise ValueError("find_best_route: unexpected default-route fallback")
+    # --- find_best_route is a FUNCTION of (self.routes, self.default_route, destination): it reads no other attribute, writes none, calls
+    # no method of the table; the table has no further state a look-up could consult (a memo would be a new field); the only writers
+    # are add_route (append) and set_default_route_next_hop_ip_address (assign default_route)
+    rt_cls = class_def(tree, "RouteTable")
+    fields = sorted(ast.unparse(st.target) for st in rt_cls.body if isinstance(st, ast.AnnAssign))
+    if fields != ["default_route", "routes", "sys_log"]:
+        raise ValueError(f"RouteTable: unexpected fields {fields} (a new field is new state a look-up may depend on: model it)")
+    methods = sorted(n.name for n in rt_cls.body if isinstance(n, ast.FunctionDef))
+    if methods != ["add_route", "describe_state", "find_best_route", "set_default_route_next_hop_ip_address", "show"]:
+        raise ValueError(f"RouteTable: unexpected methods {methods} (a new writer of the table must be modelled)")
+
+    def self_reads(fn):
+        return sorted({n.attr for n in ast.walk(fn) if isinstance(n, ast.Attribute) and isinstance(n.value, ast.Name) and n.value.id == "self"})
+
+    def self_writes(fn):
+        out = []
+        for n in ast.walk(fn):
+            tg = []
+            if isinstance(n, ast.Assign):
+                tg = n.targets
+            elif isinstance(n, (ast.AugAssign, ast.AnnAssign)):
+                tg = [n.target]
+            elif isinstance(n, ast.Delete):
+                tg = n.targets
+            for t in tg:
+                if "self" in {x.id for x in ast.walk(t) if isinstance(x, ast.Name)}:
+                    out.append(ast.unparse(t))
+            if isinstance(n, ast.Call) and ast.unparse(n.func).startswith("self.") and not ast.unparse(n.func).startswith("self.sys_log."):
+                out.append(ast.unparse(n.func) + "()")
+            if isinstance(n, (ast.Global, ast.Nonlocal)):
+                out.append("global")
+        return sorted(out)
+    fbr_pure = self_reads(fbr) == ["default_route", "routes"] and self_writes(fbr) == []
+    if not fbr_pure:
+        raise ValueError(f"find_best_route reads {self_reads(fbr)} and writes/calls {self_writes(fbr)}: not a function of routes/default_route")
+    for dec_ in fbr.decorator_list:
+        raise ValueError(f"find_best_route is decorated ({ast.unparse(dec_)}): a cache?")
+    sdr = find_method(rt_cls, "set_default_route_next_hop_ip_address")
+    if self_writes(sdr) != ["self.default_route", "self.default_route.next_hop_ip_address"]:
+        raise ValueError(f"set_default_route_next_hop_ip_address writes {self_writes(sdr)}")
     add = find_method(class_def(tree, "RouteTable"), "add_route")
+    if self_writes(add) != ["self.routes.append()"]:
+        raise ValueError(f"add_route writes {self_writes(add)}")
     appends = [ast.unparse(n) for n in ast.walk(add) if isinstance(n, ast.Call) and ast.unparse(n.func).startswith("self.routes.")]
     if appends != ["self.routes.append(route)"]:
         raise ValueError(f"add_route does not simply append: {appends}")
@@ -336,6 +378,10 @@ def ltInf (m : Int) : Option Int → Bool
   | some l => decide (m < l)
 /-- the update test of the loop, translated from `{ast.unparse(upd.test)}` -/
 def better (p l m : Int) (lo : Option Int) : Bool := {cond}
+/-- find_best_route reads only `self.routes` / `self.default_route`, writes nothing, calls no method of the table, is not decorated;
+RouteTable has no field besides routes / default_route / sys_log and no writer besides add_route (append) and
+set_default_route_next_hop_ip_address (assign) -/
+def findBestRouteIsFunctionOfTable : Bool := {"true" if fbr_pure else "false"}
 /-- after the loop: `if not best_route and self.default_route: best_route = self.default_route`; `add_route` appends -/
 def defaultOnlyWithoutBest : Bool := true
 end Primaite.Gen.Forward
